@@ -56,17 +56,25 @@ def run_case(c):
     cd = ClimateData(obs, grid, d["cycle"], anomalies=bool(d["anom"]), silence_level=3)
     events = [{"op": "construct"}, _observe(cd, toff, tscale)]
     for s in c["steps"]:
-        if s["op"] == "set_window":
-            w = s["w"]
-            cd.set_window({"time_min": float(w["tmin"]) * tscale + toff, "time_max": float(w["tmax"]) * tscale + toff,
-                           "lat_min": float(w["latmin"]), "lat_max": float(w["latmax"]),
-                           "lon_min": float(w["lonmin"]), "lon_max": float(w["lonmax"])})
-        elif s["op"] == "set_window_current":
-            cd.set_window(cd.window())
-        else:
-            cd.set_global_window()
+        exc = ""
+        try:
+            if s["op"] == "set_window":
+                w = s["w"]
+                cd.set_window({"time_min": float(w["tmin"]) * tscale + toff,
+                               "time_max": float(w["tmax"]) * tscale + toff,
+                               "lat_min": float(w["latmin"]), "lat_max": float(w["latmax"]),
+                               "lon_min": float(w["lonmin"]), "lon_max": float(w["lonmax"])})
+            elif s["op"] == "set_window_current":
+                cd.set_window(cd.window())
+            else:
+                cd.set_global_window()
+        except Exception as ex:           # the exception of a window change IS the observation of that step
+            exc = s["op"] + ":" + type(ex).__name__
         events.append(s)
-        events.append(_observe(cd, toff, tscale))
+        ob = _observe(cd, toff, tscale)
+        if exc:
+            ob["obs"] = {"exc": exc}
+        events.append(ob)
     rec = dict(c)
     rec["events"] = events
     rec["repr"] = rep + (",decimal_time" if pick == 1 else ",time_offset" if toff else "")
